@@ -37,6 +37,9 @@ pub struct Work {
     pub seed: SeedTy,
     pub prefilled: bool,
     pub threads: Vec<Vec<Op>>,
+    /// the cell is dropped while its owning frame unwinds from a panic (instead of a normal drop)
+    #[serde(default)]
+    pub drop_in_unwind: bool,
 }
 
 pub struct Val {
@@ -265,7 +268,14 @@ fn scenario<U: Seed>(w: Work, nt: Shared<bool>) {
     *nt.lock().unwrap() = contended && (s.failures_before_success > 0 || s.refs.len() >= 2);
     drop(s);
     // drop the cell: whatever it holds goes away exactly once
-    let r = catch_unwind(AssertUnwindSafe(|| drop(cell)));
+    let unwind = w.drop_in_unwind;
+    let r = catch_unwind(AssertUnwindSafe(move || {
+        let _owner = cell;
+        if unwind {
+            detsim::count("fault.cell_dropped_during_unwinding");
+            std::panic::panic_any(detsim::InjectedPanic("owner of the cell".into()));
+        }
+    }));
     let _ = detsim::reraise_abort(r);
     let live = ledger::live();
     detsim::check(live.is_empty(), "C17/leak", || format!("still alive after the cell was dropped: {live:?}"));
@@ -314,7 +324,7 @@ impl Property for C17 {
                     .collect()
             })
             .collect();
-        (knobs, serde_json::to_value(Work { seed, prefilled: g.chance(1, 12), threads }).unwrap())
+        (knobs, serde_json::to_value(Work { seed, prefilled: g.chance(1, 12), threads, drop_in_unwind: g.chance(1, 4) }).unwrap())
     }
     fn execute(&self, case: &Case) -> Outcome {
         let w: Work = serde_json::from_value(case.work.clone()).unwrap();
